@@ -544,3 +544,24 @@ Proof.
     + cbn [a_sh]. exact (key_ok_step s st (a_sh x) oc0 rw0 I H1 Hk).
     + cbn [a_sh]. apply nd_fair_step. exact Hn.
 Qed.
+
+(** ** [check_case_C06] on the model's own trace of any history: exactly (-1, -1, 0) *)
+Theorem model_passes_check_C06_exact_lemma h0 bl steps :
+  genesis_ok (ledger_of bl) h0 -> bals_of (ledger_of bl) = bl ->
+  Forall valid_step steps -> Forall actor_step steps ->
+  check_case_C06 (model_case h0 bl steps []) = (-1, -1, 0).
+Proof.
+  intros G Hc Hv Ha. unfold check_case_C06, run_check, model_case. cbn [c_bals c_h0 c_steps c_fair].
+  assert (obs0 (mkCase h0 bl (model_trace (init (ledger_of bl) h0) steps) []) = obs_of (init (ledger_of bl) h0) Ok []) as ->.
+  { unfold obs0, obs_of. cbn [c_bals init pools queue bank outcome_code]. rewrite Hc. reflexivity. }
+  pose proof (inv_init _ _ G) as I0.
+  destruct (check_from_model_sh steps (init (ledger_of bl) h0) Ok [] 0 (mkAcc (-1) (-1) 0 (-1) 0 (-1) 0 []) I0 Hv Ha) as (Hs & Hk & Hn & Hl).
+  - unfold silent. cbn. repeat split; reflexivity.
+  - intros [[w pid] d]. reflexivity.
+  - constructor.
+  - destruct (check_from (init (ledger_of bl) h0) (obs_of (init (ledger_of bl) h0) Ok []) (model_trace (init (ledger_of bl) h0) steps) 0
+                         (mkAcc (-1) (-1) 0 (-1) 0 (-1) 0 [])) as [x last]. cbn [fst snd] in *.
+    destruct Hs as (X1 & X2 & X3 & X4 & X5 & X6 & X7). rewrite X1, X6.
+    rewrite (fair_ok_model (run (init (ledger_of bl) h0) steps) last (a_sh x) (run_inv steps _ I0 Hv) Hk Hn Hl).
+    reflexivity.
+Qed.
